@@ -1,5 +1,5 @@
 (* Model/Sched.v -- property C19: work hours (c2/cfg/workhours.go), the jittered delay and the
-   kill-date checks of (*Session).wait / listen (c2/session.go) and connectContextInner (c2/c2.go).
+   kill-date checks of Session.wait / listen (c2/session.go) and connectContextInner (c2/c2.go).
    Definitions only.  Z everywhere; durations and instants are nanoseconds; the zone is DST-free
    (the harness runs with time.Local = UTC), so time.Date(y,m,d,H,M,0,0,l) of "today" is
    (H*60+M) minutes after today's midnight and time.Date(y,m,d+1,0,...) is 24 h after it. *)
@@ -70,13 +70,18 @@ Definition in_window (w : rule) (wd ns : Z) : Prop :=
 Definition jitter_on (sleep jitter gate : Z) : bool :=
   (0 <? jitter) && (jitter <? 101) && ((jitter =? 100) || (u8 gate <? jitter)) && (ms <? sleep).
 
-Definition jitter_delay (sleep jitter gate d sign : Z) : Z :=
+(* le0 = the final guard is `w <= 0` (repaired code) instead of `w == 0` (original code) *)
+Definition jitter_delay_gen (le0 : bool) (sleep jitter gate d sign : Z) : Z :=
   if jitter_on sleep jitter gate then
     let d1 := if sign =? 1 then i64 (d * -1) else d in
     let w1 := i64 (sleep + i64 (d1 * ms)) in
     let w2 := if w1 <? 0 then i64 (w1 * -1) else w1 in
-    if w2 =? 0 then sleep else w2
+    if (if le0 then w2 <=? 0 else w2 =? 0) then sleep else w2
   else sleep.
+
+(* the implementation as it is in /repo now *)
+Definition impl_le0 : bool := true.
+Definition jitter_delay := jitter_delay_gen impl_le0.
 
 (* which draws wait() consumed: bit 0 = gate, bit 1 = amount, bit 2 = sign *)
 Definition jitter_uses (sleep jitter gate : Z) : Z :=
@@ -106,7 +111,7 @@ Definition kill_passed (c : kcfg) (now : Z) : bool :=
 Definition eff_work (c : kcfg) : option rule :=
   match k_work c with Some w => if empty w then None else Some w | None => None end.
 
-(* one (*Session).wait on the client: (now, closing) -> (now', closing').  dl = the delay wait()
+(* one Session.wait on the client: (now, closing) -> (now', closing').  dl = the delay wait()
    computed (jitter_delay).  recheck = the kill date is tested again after the sleep. *)
 Definition wait_step (recheck : bool) (c : kcfg) (dl : Z) (now : Z) (closing : bool) : Z * bool :=
   if closing then (now, true)
@@ -129,10 +134,10 @@ Fixpoint listen (recheck : bool) (c : kcfg) (script : list item) (now : Z) (clos
   | [] => []
   | it :: rest =>
     let '(now1, cl1) := wait_step recheck c (i_dl it) now closing in
-    if cl1 then [(now1, true)]
+    if cl1 then [(now1, true)]          (* final exchange: Shutdown is set, the loop ends whatever Connect returns *)
     else if i_fail it then
-      if i_close it then [(now1, false)]
-      else if errors <=? 5 then (now1, false) :: listen recheck c rest (now1 + i_dur it) false (errors + 1)
+      (* `if s.state.Shutdown() break` is false here; at most maxErrors + 1 failures in a row *)
+      if errors <=? 5 then (now1, false) :: listen recheck c rest (now1 + i_dur it) (i_close it) (errors + 1)
       else [(now1, false)]
     else (now1, false) :: listen recheck c rest (now1 + i_dur it) (i_close it) 0
   end.
@@ -168,6 +173,8 @@ Inductive case :=
 | CWork (w : rule) (obs : list (Z * Z * Z))            (* weekday, ns of day, Work() observed *)
 | CRule (w : rule) (is_empty : bool) (ver : Z)
 | CJit (sleep jitter : Z) (obs : list (Z * Z * Z * Z * Z))   (* gate, d, sign, delay observed, draws used *)
+| CJitN (sleep n : Z)                                   (* the range wait() passed to Int63n *)
+| CWait (c : kcfg) (dl now : Z) (closing : bool) (now' : Z) (closing' : bool)   (* one wait() *)
 | CKill (c : kcfg) (t0 : Z) (script : list item) (obs : list (Z * bool)).
 
 Definition ev_eqb (a b : Z * bool) : bool := (fst a =? fst b) && Bool.eqb (snd a) (snd b).
@@ -179,5 +186,8 @@ Definition check (c : case) : bool :=
   | CJit sl j obs =>
       forallb (fun o => let '(g, d, sg, r, u) := o in
                         (jitter_delay sl j g d sg =? r) && (jitter_uses sl j g =? u)) obs
+  | CJitN sl n => jitter_range sl =? n
+  | CWait c dl now cl now' cl' =>
+      let '(n2, c2) := wait_step impl_recheck c dl now cl in (n2 =? now') && Bool.eqb c2 cl'
   | CKill c t0 sc obs => list_eqb ev_eqb (client impl_recheck c sc t0) obs
   end.
